@@ -122,6 +122,9 @@ func (ctx *Context) applyAtRecursively(pos int) int {
 		lookupIndex := ctx.stack[k].Actions[0].LookupListIndex
 		seqIdx := ctx.stack[k].Actions[0].SequenceIndex
 		if int(seqIdx) >= len(ctx.stack[k].InputPos) {
+			// An action for a position outside the (current) input sequence
+			// does not apply; it must still be consumed.
+			ctx.stack[k].Actions = ctx.stack[k].Actions[1:]
 			continue
 		}
 		pos := ctx.stack[k].InputPos[seqIdx]
